@@ -66,7 +66,7 @@ fn index_probes(acc: &mut Acc, s: &dyn Subject, e: &EnumSchema, rng: &mut refmod
 }
 
 pub fn c13(ctx: &mut Ctx, acc: &mut Acc) -> i32 {
-    let n = ctx.n(150, 2500);
+    let n = ctx.n(800, 6000);
     // (1) every enum of the corpus: leading index, unknown and transient indices
     let ids: Vec<String> = ctx.my_subjects(|s| enum_schema(s).is_some()).iter().map(|s| s.id().to_string()).collect();
     for id in &ids {
@@ -103,6 +103,7 @@ pub fn c13(ctx: &mut Ctx, acc: &mut Acc) -> i32 {
         .iter()
         .enumerate()
         .filter(|(i, _)| i % ctx.shards == ctx.shard)
+        .filter(|(_, f)| !ctx.only_fresh() || is_fresh_id(&f.id))
         .map(|(_, f)| (f.id.clone(), f.members.clone()))
         .collect();
     for (fid, members) in &fams {
@@ -178,7 +179,7 @@ pub fn c13(ctx: &mut Ctx, acc: &mut Acc) -> i32 {
 }
 
 pub fn c14(ctx: &mut Ctx, acc: &mut Acc) -> i32 {
-    let n = ctx.n(200, 3000);
+    let n = ctx.n(800, 6000);
     // (1) transient fields contribute no bytes and decode to their default
     let ids: Vec<String> = ctx.my_subjects(|s| has_transient_field(&s.ty())).iter().map(|s| s.id().to_string()).collect();
     for id in &ids {
